@@ -14,7 +14,7 @@ def Param.Nonneg (p : Param α) : Prop := ∀ x y, (0 : α) ≤ p.interp x y
 
 structure Comp.Phys (c : Comp α) : Prop where
   rs    : (0 : α) ≤ c.rs
-  rsl   : ∀ l, c.rsList = some l → ∀ x ∈ l, (0 : α) ≤ x
+  rsl   : ∀ k, (0 : α) ≤ c.muxRs k      -- list form: entries are stored as given and used in magnitude
   vdrop : (0 : α) ≤ c.vdrop
   iq    : (0 : α) ≤ c.iq
   iis   : (0 : α) ≤ c.iis
